@@ -7,6 +7,8 @@ package main
 // ghost-state declarations live in /verif/specs/*.spec with the same syntax.
 
 import (
+	"crypto/sha1"
+	"encoding/hex"
 	"fmt"
 	"os"
 	"strings"
@@ -451,6 +453,12 @@ func parseClause(rest string, where string) (*Clause, error) {
 	e, err := ParseExpr(rest)
 	if err != nil {
 		return nil, err
+	}
+	if name == "" {
+		// unnamed clauses are labelled by a hash of their text, so that inserting or reordering clauses
+		// does not rename the obligations generated from the others
+		h := sha1.Sum([]byte(strings.Join(strings.Fields(rest), " ")))
+		name = "c" + hex.EncodeToString(h[:])[:6]
 	}
 	return &Clause{Name: name, Text: strings.TrimSpace(rest), E: e, Line: where}, nil
 }
